@@ -87,6 +87,11 @@ def cases(shard, nshards, seed, tier):
     for t in range(2 if tier == "quick" else 6):
         if mine():
             yield {"family": "cli-annotator-ambiguous-base", "module": "annotator", "argv": ["--csv", "o.csv", "--json", "o.json", "{in}"], "ambiguous": t}
+    # uridines presented as thymidines (DT): the thymine rows of the edge / donor / acceptor tables decide, with the
+    # many non-canonical pairs of tRNA and riboswitch folds
+    for src in ("tests/1ehz-assembly-1.cif", "tests/4qln.cif", "tests/1E7K_1_C.cif"):
+        if mine():
+            yield {"family": "cli-annotator-u-as-dt", "module": "annotator", "argv": ["--csv", "o.csv", "--json", "o.json", "-e", "{in}"], "u_as_dt": src}
     # one interpreter handling several inputs in a row vs a fresh interpreter per input
     for i in range(6 if tier == "quick" else 60):
         if mine():
@@ -222,6 +227,22 @@ def _batch_case(case, rec):
                     pth = os.path.join(workdir, "conf0-almost-the-same.cif")
                     open(pth, "w").write(emit.emit_cif(emit.rows_from_structure(near, decimals=5), decimals=5))
                     paths.append(pth)
+            # two inputs that use one non-standard residue name (UNK) for different bases: a guanosine in the first,
+            # a cytidine in the second (names of unknown components are not unique across files)
+            src2 = gen3d.load("tests/1ATO.pdb")
+            rows0 = emit.rows_from_structure(src2)
+            keys = []
+            for r in rows0:
+                kq = (r["chain"], r["resseq"], r["icode"], r["resname"])
+                if kq not in keys:
+                    keys.append(kq)
+            gs, cs = [kq for kq in keys if kq[3] == "G"], [kq for kq in keys if kq[3] == "C"]
+            if gs and cs:
+                for nm, victim in (("unk-is-a-guanosine.pdb", rng.choice(gs)), ("unk-is-a-cytidine.pdb", rng.choice(cs))):
+                    rws = [dict(r, resname="UNK", rec="HETATM") if (r["chain"], r["resseq"], r["icode"], r["resname"]) == victim else dict(r) for r in rows0]
+                    pth = os.path.join(workdir, nm)
+                    open(pth, "w").write(emit.emit_pdb(rws))
+                    paths.append(pth)
             rng.shuffle(paths)
             # the nearly identical copy is handled right after the original
             o, nr = os.path.join(workdir, "conf0.cif"), os.path.join(workdir, "conf0-almost-the-same.cif")
@@ -280,7 +301,20 @@ def run_case(case, rec):
     seeds = [0, 1, 2] if os.environ.get("VERIF_TIER_EFFECTIVE", _cur.get("tier", "quick")) == "quick" else [0, 1, 2, 4242, "random", "random"]
     workdir = tempfile.mkdtemp(prefix="vmon-c14-")
     try:
-        if "ambiguous" in case:
+        if "u_as_dt" in case:
+            from vmon import emit, gen3d
+
+            core.setup_path()
+            src = gen3d.load(case["u_as_dt"])
+            # every residue whose one-letter name is U - modified uridines included - is named DT
+            us = {(r.auth.chain, r.auth.number, r.auth.icode) for r in src.residues if r.auth is not None and r.one_letter_name == "U"}
+            rows = emit.rows_from_structure(src)
+            for r in rows:
+                if (r["chain"], r["resseq"], r["icode"]) in us:
+                    r["resname"] = "DT"
+            inp = os.path.join(workdir, "u-as-dt.cif")
+            open(inp, "w").write(emit.emit_cif(rows))
+        elif "ambiguous" in case:
             from vmon import emit, gen3d
 
             core.setup_path()
